@@ -184,7 +184,7 @@ func c20Decoders(tag byte, body []byte, kind byte) *hx.Failure {
 	if tag != 0xB0 || kind == 0xB0 {
 		for _, orig := range []string{"hvc1", "", "hev1.2.4.L120.90", "avc1.640028", "avc3", "dvh1.05.06", "dvav.09.05", "mp4a.40.2",
 			// RFC 6381 lists, as a manifest's CODECS attribute carries them
-			"hvc1,ec-3", "hev1.1.6.L93.B0,mp4a.40.2", "hvc1,", ",hev1", "mp4a.40.2,hvc1.2.4.L120.90", "avc1.640028,ac-3"} {
+			"hvc1.2.4.L120.90", "hvc1.1.6.L93.B0", "hvc1,ec-3", "hev1.1.6.L93.B0,mp4a.40.2", "hvc1,", ",hev1", "mp4a.40.2,hvc1.2.4.L120.90", "avc1.640028,ac-3"} {
 			want := neutral.DecodeDolbyVisionCodec(orig)
 			if tag == 0xB0 {
 				num := uint16(body[2])<<8 | uint16(body[3])
@@ -266,7 +266,7 @@ func checkC20(c CaseC20, x *hx.Ctx) *hx.Failure {
 var propC20 = hx.Register(hx.Prop[CaseC20]{ID: "C20", Gen: genC20, Check: checkC20})
 
 func c20Rule() {
-	hx.Rec("C20").SetRule("cases: a stream_type code, a PID, a well-formed descriptor of one of the decoded kinds (ISO-639 with 4k-byte body, maximum_bitrate < 2^21 with random reserved bits, registration 4..12 bytes with/without DOVI, TTML extension body >= 5 bytes with tag extension 0x20 (bodies with another tag extension are generated but only the tag-extension test and the stream-level TTML test are asserted on them), Dolby Vision with profile 0..127 and level 0..31, decoded with fourteen different originalCodec arguments (single codecs and comma-separated lists)), the same body under another drawn tag, and a small list of stream types for the PMT-level by-PID query (through a reference-built PMT decoded by NewPMT). Oracle: the statement's code lists typed into the harness; decoder definitions; under another tag the same value as for a canonical descriptor of tag 0 with an empty body (the decoder's neutral value; false for the tests). Enumerated: all 256 stream types (lookup, constructor, decoded-from-PMT, by-PID query); every decoder's body under all 256 tags. Non-trivial: code in or adjacent to a positive list, or the descriptor's tag differs from the decoder's tag.",
+	hx.Rec("C20").SetRule("cases: a stream_type code, a PID, a well-formed descriptor of one of the decoded kinds (ISO-639 with 4k-byte body, maximum_bitrate < 2^21 with random reserved bits, registration 4..12 bytes with/without DOVI, TTML extension body >= 5 bytes with tag extension 0x20 (bodies with another tag extension are generated but only the tag-extension test and the stream-level TTML test are asserted on them), Dolby Vision with profile 0..127 and level 0..31, decoded with sixteen different originalCodec arguments (single codecs and comma-separated lists)), the same body under another drawn tag, and a small list of stream types for the PMT-level by-PID query (through a reference-built PMT decoded by NewPMT). Oracle: the statement's code lists typed into the harness; decoder definitions; under another tag the same value as for a canonical descriptor of tag 0 with an empty body (the decoder's neutral value; false for the tests). Enumerated: all 256 stream types (lookup, constructor, decoded-from-PMT, by-PID query); every decoder's body under all 256 tags. Non-trivial: code in or adjacent to a positive list, or the descriptor's tag differs from the decoder's tag.",
 		"maximum_bitrate below 2^21 and Dolby Vision level below 32 (the ranges the quantifier text gives)",
 		"a decoder is only applied to bodies that are well-formed for it, or under a tag it does not decode")
 }
